@@ -174,7 +174,10 @@ async fn setup(nt: usize) -> World {
         let (Some(id), Some(key)) = (r.json["id"].as_str(), r.json["api_key"].as_str()) else { fail("create tenant", &r) };
         let (id, key) = (id.to_string(), key.to_string());
         let hdr = [("x-api-key", key.as_str())];
-        let r = send(&routes, "POST", "/api/v1/pipelines", &hdr, Some(&json!({"name": format!("pipe_{token}"), "source": source(&format!("Out_{token}"), &format!("mark_{token}"))}))).await;
+        let r = send(&routes, "POST", "/api/v1/pipelines", &hdr, Some(&json!({"name": "pipe_shared", "source": source(&format!("Out_{token}"), &format!("mark_{token}"))}))).await;
+        // every tenant's first pipeline has the SAME name (names are only unique per tenant): anything
+        // keyed by pipeline name across tenants then mixes tenants up (added after seeded change C28);
+        // sources, markers and output stream names still carry the owner's token for the leak scan
         let Some(pid) = r.json["id"].as_str().map(|s| s.to_string()) else { fail("deploy", &r) };
         // a different number of events per tenant, so usage numbers identify their owner
         for k in 0..=i {
